@@ -66,10 +66,13 @@ pub fn gen_impl_trait_into(
     //     Into<Inner> for Type
     // by implementing
     //     From<Type> for Inner
+    // The type must be referred to without trait bounds: `Wrapper<T>`, not `Wrapper<T: Ord>`.
+    let generics_without_bounds = strip_trait_bounds_on_generics(generics);
+
     quote! {
-        impl #generics ::core::convert::From<#type_name #generics> for #inner_type {
+        impl #generics ::core::convert::From<#type_name #generics_without_bounds> for #inner_type {
             #[inline]
-            fn from(value: #type_name #generics) -> Self {
+            fn from(value: #type_name #generics_without_bounds) -> Self {
                 value.into_inner()
             }
         }
